@@ -851,6 +851,13 @@ func (c *fnCtx) fireAnchors(st *State, b *ssa.BasicBlock, in ssa.Instruction) {
 			if a.Label != "" {
 				kind = "assert:" + a.Label
 			}
+			// vacuity guard: the anchored point must be reachable under the assumptions made so far
+			rk := "reach"
+			if a.Label != "" {
+				rk = "reach:" + a.Label
+			}
+			c.obls = append(c.obls, &Obligation{Name: c.oblName(rk), Fn: c.fnName, Kind: "reach", Props: c.propsFor(a.Props),
+				Clause: "the point of assert " + a.Label + " is reachable", Pos: c.posStr(in.Pos()), Backend: "smt", declLen: c.sb.Len(), extra: st.cur, Cover: true})
 			c.oblige(st, kind, t, a.Text, c.propsFor(a.Props), in.Pos())
 		case "apply":
 			// apply /anchor/ lemma(args): assume an instance of a lemma that is proved on its own
@@ -1189,7 +1196,7 @@ func (c *fnCtx) collectDebug() {
 					if _, isVar := obj.(*types.Var); !isVar {
 						continue
 					}
-					c.dbg[obj.Name()] = append(c.dbg[obj.Name()], dbgRef{d.X, d.IsAddr, b, i})
+					c.dbg[obj.Name()] = append(c.dbg[obj.Name()], dbgRef{d.X, d.IsAddr, b, i, obj})
 				}
 			}
 		}
@@ -1206,6 +1213,30 @@ func (c *fnCtx) lookupVarX(st *State, name string, at *ssa.BasicBlock, atEnd boo
 }
 
 func (c *fnCtx) lookupVarY(st *State, name string, at *ssa.BasicBlock, atEnd bool, hdr *ssa.BasicBlock, upTo ssa.Instruction) (SymVal, bool) {
+	// identifiers are resolved as Go would at the anchor: a variable whose scope does not
+	// contain the anchor position (an inner, shadowing declaration) is not a candidate
+	inScope := func(d *dbgRef) bool {
+		if upTo == nil || !upTo.Pos().IsValid() || d.obj == nil || d.obj.Parent() == nil {
+			return true
+		}
+		return d.obj.Parent().Contains(upTo.Pos())
+	}
+	if at != nil && upTo != nil {
+		// a memory-resident variable in scope never has phis: a phi of the same name belongs to a
+		// shadowing declaration
+		for i := range c.dbg[name] {
+			d := &c.dbg[name][i]
+			if !inScope(d) || !d.isAddr || upTo == nil {
+				continue
+			}
+			if al, ok := d.v.(*ssa.Alloc); ok {
+				if _, defined := c.vals[al]; defined && (al.Block() == at || al.Block().Dominates(at)) {
+					locs, t := c.addrLocs(st, al)
+					return c.loadLocs(st, locs, t), true
+				}
+			}
+		}
+	}
 	if hdr != nil {
 		for _, in := range hdr.Instrs {
 			phi, ok := in.(*ssa.Phi)
@@ -1245,6 +1276,9 @@ func (c *fnCtx) lookupVarY(st *State, name string, at *ssa.BasicBlock, atEnd boo
 		var best *dbgRef
 		for i := range c.dbg[name] {
 			d := &c.dbg[name][i]
+			if !inScope(d) {
+				continue
+			}
 			if d.blk == at && !atEnd {
 				continue
 			}
@@ -1313,6 +1347,9 @@ func (c *fnCtx) lookupVarY(st *State, name string, at *ssa.BasicBlock, atEnd boo
 		// a variable that lives in memory (address-taken) is always read through its cell
 		for i := range c.dbg[name] {
 			d := &c.dbg[name][i]
+			if !inScope(d) {
+				continue
+			}
 			if d.isAddr {
 				if al, ok := d.v.(*ssa.Alloc); ok {
 					if _, defined := c.vals[al]; defined && (al.Block() == at || al.Block().Dominates(at)) {
@@ -1345,7 +1382,6 @@ func isConstLike(v ssa.Value) bool {
 	}
 	return false
 }
-
 
 // frameObligations checks the body against its modifies clause: for every heap
 // component the function (or a callee) may have written, every location that
@@ -1487,7 +1523,6 @@ func (c *fnCtx) frameObligations(normal []retSite) {
 	}
 }
 
-
 // balanceObligations: a function that acquires iterators (ghost g_open changes
 // somewhere in its body) and does not hand one out must release them on every
 // exit: normal returns and explicit panics (after running deferred calls).
@@ -1539,7 +1574,6 @@ func (c *fnCtx) returnsIterator() bool {
 	return false
 }
 
-
 // ghostEntry names the (unconstrained) value of a ghost variable at function entry.
 func (c *fnCtx) ghostEntry(name string) string {
 	n := smtName("ghost0!" + name)
@@ -1549,7 +1583,6 @@ func (c *fnCtx) ghostEntry(name string) string {
 	}
 	return n
 }
-
 
 // addrOfVar: the address of a source variable that lives in memory (an escaping Alloc).
 func (c *fnCtx) addrOfVar(name string) (string, types.Type, bool) {
